@@ -5,6 +5,7 @@ from xitorch._utils.assertfuncs import assert_fcn_params, assert_runtime
 from xitorch._core.pure_function import get_pure_function, make_sibling
 from xitorch._utils.misc import set_default_option, TensorNonTensorSeparator, \
     TensorPacker, get_method
+from xitorch._utils.tensor import convert_none_grads_to_zeros
 from xitorch._impls.integrate.fixed_quad import leggauss
 from xitorch._docstr.api_docstr import get_methods_docstr
 from xitorch.debug.modes import is_debug_enabled
@@ -195,7 +196,10 @@ class _Quadrature(torch.autograd.Function):
                 dfdts = torch.autograd.grad(f, tensor_params,
                                             grad_outputs=grad_ys,
                                             retain_graph=True,
-                                            create_graph=torch.is_grad_enabled())
+                                            create_graph=torch.is_grad_enabled(),
+                                            allow_unused=True)
+                # tensors that do not influence the integrand get a zero gradient
+                dfdts = convert_none_grads_to_zeros(dfdts, tensor_params)
                 return dfdts
 
             # reconstruct grad_params
